@@ -256,6 +256,94 @@ static std::string op_san_parse(std::istringstream& is)
     return join(v);
 }
 
+// ---- C18 / C19: Polyglot ----
+#include <fstream>
+#include <random>
+#include <unistd.h>
+static std::string op_pghash(std::istringstream& is)
+{
+    GameCase g = parse_game(is);
+    Position p(g.fen);
+    return hex(PolyglotBook::hash(p));
+}
+
+static std::string tmp_book(const std::string& hexbytes)
+{
+    char path[] = "/tmp/verif_book_XXXXXX";
+    int fd = mkstemp(path);
+    std::string bytes;
+    for (size_t i = 0; i + 1 < hexbytes.size(); i += 2)
+        bytes.push_back(char(strtoul(hexbytes.substr(i, 2).c_str(), nullptr, 16)));
+    if (fd >= 0) { ssize_t r = write(fd, bytes.data(), bytes.size()); (void)r; close(fd); }
+    return path;
+}
+
+// book <hexbytes|-> : the loaded map, keys ascending, entries in order
+static std::string op_book(std::istringstream& is)
+{
+    std::string hb;
+    is >> hb;
+    if (hb == "-") hb = "";
+    std::string path = tmp_book(hb);
+    PolyglotBook b(path, 1);
+    unlink(path.c_str());
+    std::ostringstream o;
+    o << b._hashmap.size();
+    for (auto& kv : b._hashmap)
+    {
+        o << " " << hex(kv.first) << ":";
+        for (size_t i = 0; i < kv.second.size(); ++i) o << (i ? "," : "") << kv.second[i].first << "/" << kv.second[i].second;
+    }
+    return o.str();
+}
+
+// pick <seed> <n> | w1 w2 ... : n draws of the random policy on one key; prints draw:move pairs and the best move
+static std::string op_pick(std::istringstream& is)
+{
+    size_t seed; int n; std::string bar;
+    is >> seed >> n >> bar;
+    std::vector<int> ws; int w;
+    while (is >> w) ws.push_back(w);
+    std::string hb;
+    char buf[64];
+    for (size_t i = 0; i < ws.size(); ++i)
+    {
+        // key 1, move code: from a2(+i files/ranks) to a3.. : use from = i, to = 63 - i (distinct raw moves)
+        int from = int(i % 64), to = int(63 - (i % 64));
+        int mc = ((from / 8) << 9) | ((from % 8) << 6) | ((to / 8) << 3) | (to % 8);
+        snprintf(buf, sizeof buf, "0000000000000001%04x%04x00000000", mc, ws[i] & 0xFFFF);
+        hb += buf;
+    }
+    std::string path = tmp_book(hb);
+    PolyglotBook b(path, seed);
+    unlink(path.c_str());
+    Position pos("8/8/8/8/8/8/8/K1k5 w - - 0 1");
+    // the harness replays the generator to know each draw
+    std::mt19937 gen(seed);
+    std::uniform_int_distribution<std::mt19937::result_type> dist;
+    std::ostringstream o;
+    if (!b.contains(1)) return "EMPTY";
+    for (int i = 0; i < n; ++i)
+    {
+        unsigned long long d = dist(gen);
+        Move m = b.get_random_move(1, pos);
+        o << hex(d) << ":" << m << " ";
+    }
+    o << "best:" << b.get_best_move(1, pos);
+    return o.str();
+}
+
+// pgdecode <fen> | code... : decode_move of raw (from,to) moves in a position
+static std::string op_pgdecode(std::istringstream& is)
+{
+    GameCase g = parse_game(is);
+    Position p(g.fen);
+    PolyglotBook b;
+    std::vector<std::string> v;
+    for (auto& t : g.moves) v.push_back(std::to_string(b.decode_move(Move(atoi(t.c_str())), p)));
+    return join(v);
+}
+
 static std::string dispatch_more(const std::string& op, std::istringstream& is)
 {
     if (op == "g_legal") return run_game(is, obs_legal);
@@ -266,6 +354,10 @@ static std::string dispatch_more(const std::string& op, std::istringstream& is)
     if (op == "walk") return op_walk(is);
     if (op == "walkx") return op_walk_gen(is, obs_full);
     if (op == "g_key") return run_game(is, obs_key);
+    if (op == "pghash") return op_pghash(is);
+    if (op == "book") return op_book(is);
+    if (op == "pick") return op_pick(is);
+    if (op == "pgdecode") return op_pgdecode(is);
     if (op == "g_san") return run_game(is, obs_san);
     if (op == "san_parse") return op_san_parse(is);
     if (op == "g_classify" || op == "g_classify_alg") return run_game(is, obs_classify);
